@@ -38,6 +38,11 @@ def litmus_shapes():
         add(f"MP[{w},{r}]", [[st("y", 1), st("x", 1, w)], [ld("x", r), ld("y")]])
     for f1, f2 in itertools.product(["rel", "acqrel", "sc"], ["acq", "acqrel", "sc"]):
         add(f"MP+fences[{f1},{f2}]", [[st("y", 1), fence(f1), st("x", 1)], [ld("x"), fence(f2), ld("y")]])
+    # SeqCst data, relaxed flag: a SeqCst load may still read a store that is mo-before an executed SeqCst store
+    add("MP-scdata", [[st("x", 1, "sc"), st("y", 1)], [ld("y"), ld("x", "sc")]])
+    add("MP-scdata-2st", [[st("x", 1), st("x", 2, "sc"), st("y", 1)], [ld("y"), ld("x", "sc")]], ["x"])
+    add("MP-scdata-acqflag", [[st("x", 1, "sc"), st("y", 1, "rel")], [ld("y", "acq"), ld("x", "sc")]])
+    add("sc-load-rlx-store", [[st("x", 1), st("y", 1, "sc")], [ld("y", "sc"), ld("x", "sc")]])
     add("MP+relfence+acqload", [[st("y", 1), fence("rel"), st("x", 1)], [ld("x", "acq"), ld("y")]])
     add("MP+relstore+acqfence", [[st("y", 1), st("x", 1, "rel")], [ld("x"), fence("acq"), ld("y")]])
     add("MP+wrongfence", [[st("y", 1), fence("acq"), st("x", 1)], [ld("x"), fence("rel"), ld("y")]])
@@ -670,6 +675,9 @@ def blocking_shapes():
     A(P("chan-lock-cycle", [spawn(2), L("lock", "m"), L("recv", "ch"), L("unlock", "m"), join(2), L("droprx", "ch")],
         CS("m", L("send", "ch", v=1))))
     A(P("await-never-deadlock-free", SJ(2) + JJ(2), [st("x", 1, "rel")], [await_("x", "acq")]))
+    # the waiter with the higher id wins the mutex and then waits for something only the other waiter could do
+    A(P("pile-up-deadlock-if-second-wins", [L("lock", "m"), spawn(2), spawn(3), L("recv", "ch"), L("recv", "ch"), L("unlock", "m"), join(2), join(3), L("droprx", "ch")],
+        [L("send", "ch", v=1)] + CS("m", st("x", 1)), [L("send", "ch", v=2)] + CS("m", ld("x"), br(1, 0, 1), L("park"))))
     # a parked thread is not a waiter of the object it touched last
     A(P("park-after-mutex-nounpark", SJ(2) + JJ(2), CS("m") + [L("park")], CS("m", ld("x"))))
     A(P("park-after-mutex-nounpark-2", SJ(2) + JJ(2), CS("m", ld("x")) + [L("park")], CS("m") + CS("m")))
@@ -733,6 +741,19 @@ def lock_shapes():
     A(P("trywrite-readers-yield", SJ(3) + JJ(3), [L("read", "l"), Y, rd("c_l"), L("unlockr", "l")], [L("read", "l"), Y, rd("c_l"), L("unlockr", "l")],
         [L("trywrite", "l"), br(1, 1, 2), wr("c_l"), L("unlockw", "l")]))
     A(P("mutex-3-yield", SJ(3) + JJ(3), CS("m", Y, wr("c_m")), CS("m", wr("c_m"), Y), CS("m", Y, wr("c_m"), Y)))
+    # the holder releases while the try_lock-er is parked at try_lock's own scheduling point (a later lock of the
+    # holder is what makes loom schedule it there): the result must reflect the lock state at that instant
+    A(P("trylock-then-holder-releases", SJ(2) + JJ(2), CS("m", Y) + CS("m"), [L("trylock", "m"), br(1, 1, 1), L("unlock", "m")]))
+    A(P("trylock-then-holder-releases-3", SJ(3) + JJ(3), CS("m", Y) + CS("m"), [L("trylock", "m"), br(1, 1, 1), L("unlock", "m")], CS("m", Y)))
+    A(P("tryread-then-writer-releases", SJ(2) + JJ(2), [L("write", "l"), Y, L("unlockw", "l"), L("write", "l"), L("unlockw", "l")],
+        [L("tryread", "l"), br(1, 1, 1), L("unlockr", "l")]))
+    A(P("trywrite-then-reader-releases", SJ(2) + JJ(2), [L("read", "l"), Y, L("unlockr", "l"), L("write", "l"), L("unlockw", "l")],
+        [L("trywrite", "l"), br(1, 1, 1), L("unlockw", "l")]))
+    # two waiters pile up on one mutex while the holder is blocked inside its section: either may win
+    A(P("two-waiters-pile-up", [L("lock", "m"), spawn(2), spawn(3), L("recv", "ch"), L("recv", "ch"), L("unlock", "m"), join(2), join(3), L("droprx", "ch"), ld("x")],
+        [L("send", "ch", v=1)] + CS("m", fadd("x", 1)), [L("send", "ch", v=2)] + CS("m", fadd("x", 2))))
+    A(P("two-waiters-pile-up-rw", [L("write", "l"), spawn(2), spawn(3), L("recv", "ch"), L("recv", "ch"), L("unlockw", "l"), join(2), join(3), L("droprx", "ch")],
+        [L("send", "ch", v=1), L("write", "l"), fadd("x", 1), L("unlockw", "l")], [L("send", "ch", v=2), L("write", "l"), fadd("x", 2), L("unlockw", "l")]))
     return out
 
 
@@ -1093,6 +1114,13 @@ def panic_base():
     A(P("pb-arc-in-table", SJ(1) + [ld("x"), D("a1")] + JJ(1), [ld("x"), D("a2")], arcs=a2))
     A(P("pb-arc-in-frame", SJ(1) + [L("ahold", "a1"), ld("x"), L("adropheld", "a1")] + JJ(1), [L("ahold", "a2"), ld("x"), L("adropheld", "a2")], arcs=a2))
     A(P("pb-arc-moved-into-unstarted-thread", [I("spawn", "a2", v=2), ld("x"), D("a1"), join(2)], [ld("x"), D("a2")], arcs=a2))
+    # a deadlock detected by a thread that owns a loom Arc in its frame (the Arc<(Mutex, Condvar)> idiom):
+    # the report must come out as a panic, whatever kind of blocking is involved
+    A(P("pb-deadlock-join-arc-in-frame", [spawn(2), L("ahold", "a1"), join(2), L("adropheld", "a1")], [L("ahold", "a2"), L("recv", "ch"), L("adropheld", "a2")], arcs=a2))
+    A(P("pb-deadlock-cv-arc-in-frame", SJ(2) + JJ(2), [L("ahold", "a1")] + CS("m", L("cvwait", "cv", o2="m")) + [L("adropheld", "a1")],
+        [L("ahold", "a2"), ld("x")] + CS("m", L("notify1", "cv")) + [L("adropheld", "a2")], arcs=a2))
+    A(P("pb-deadlock-locks-arc-in-frame", SJ(2) + JJ(2), [L("ahold", "a1")] + CS("m", ld("x"), *CS("n")) + [L("adropheld", "a1")],
+        [L("ahold", "a2")] + CS("n", ld("x"), *CS("m")) + [L("adropheld", "a2")], arcs=a2))
     A(P("pb-track", [L("tnew", "k"), spawn(2), ld("x"), join(2)], [ld("x"), L("tdrop", "k")]))
     A(P("pb-track-moved-into-unstarted-thread", [L("tnew", "k"), I("spawn", k="k", v=2), ld("x"), join(2)], [ld("x"), L("tdrop", "k")]))
     A(P("pb-receiver-moved-into-unstarted-thread", [I("spawn", o2="ch", v=2), ld("x"), L("send", "ch", v=1), join(2)],
